@@ -2,6 +2,7 @@ package props
 
 import (
 	"fmt"
+	"runtime"
 	"strings"
 	"testing"
 
@@ -514,7 +515,7 @@ var hostileTexts = []string{
 	"[{\"op\":\"test\",\"path\":\"/0\",\"value\":1},{\"op\":\"test\",\"path\":\"/1\",\"value\":1}]", "[{\"op\":\"test\",\"path\":\"/0\",\"value\":1},{\"op\":\"test\",\"path\":\"/1\",\"value\":1},{\"op\":\"test\",\"path\":\"\",\"value\":1}]",
 	"[{\"op\":\"test\",\"path\":\"/0\",\"value\":1},{\"op\":\"test\",\"path\":\"/1\",\"value\":1},{\"op\":\"add\",\"path\":\"/a\",\"value\":1}]", "[{\"op\":\"remove\",\"path\":\"/0\"}]", "[{\"op\":\"add\",\"path\":\"/0\",\"value\":{\"a\":[1,{}]}}]",
 	"{\"a\":null}", "{\"a\":{\"b\":null}}", "{\"\":{}}", "- a\n- b", "a: b", "a: [", "? a", "&a [*a]", "<<: 1", "<<: {a: 1}\nb: 2", "1: 2", "true: 1", "? [a]\n: b", "{a: 1}: b", "!!binary aGk=", "!!set {a, b}",
-	"2001-12-14", "0x1F", "1_000", "- !!timestamp 2001-12-14", "a: !!float 1", "---\na\n---\nb", "\t", "%YAML 1.1\n---\na", "a: &x {b: 1}\nc: *x", "18446744073709551615", "-9223372036854775809", ".inf", ".nan",
+	"2001-12-14", "0x1F", "1_000", "- !!timestamp 2001-12-14", "a: !!float 1", "---\na\n---\nb", "\t", "%YAML 1.1\n---\na", "a: &x {b: 1}\nc: *x", "18446744073709551615", "-9223372036854775809", ".inf", ".nan", "-.inf", "+.inf", "-.Inf", "-.INF", "!!float -.inf", "[.inf, -.inf]", "a: -.inf", "- -.inf\n- .NaN", "a: {b: [-.inf]}",
 }
 
 func mutateText(t *rapid.T, s string) string {
@@ -802,6 +803,88 @@ func TestC13Constants(t *testing.T) {
 			for _, tg := range targets {
 				e.Do(TextCase{Kind: kind, Text: txt, Target: tg})
 			}
+		}
+	}
+}
+
+// ---- scale: long strings must not blow up memory
+//
+// A diff that replaces one long string by another is rendered, applied and
+// translated; the bytes allocated by each call must stay linear in the
+// length of the string (a quadratic table of 8 bytes per cell for two 70 KB
+// strings is 39 GB: the process is killed instead of printing the diff).
+// The oracle counts allocated bytes, not time.
+
+type ScaleCase struct {
+	N    int    `json:"n"`    // length of the string
+	Wrap string `json:"wrap"` // "" | key | index
+}
+
+func allocatedBy(f func()) uint64 {
+	var m0, m1 runtime.MemStats
+	runtime.GC()
+	runtime.ReadMemStats(&m0)
+	f()
+	runtime.ReadMemStats(&m1)
+	return m1.TotalAlloc - m0.TotalAlloc
+}
+
+func checkC13Scale(c ScaleCase, r *rec.Rec) error {
+	if c.N < 100 || c.N > 200000 {
+		return fmt.Errorf("bad case")
+	}
+	base := strings.Repeat("long line ", c.N/10)
+	mk := func(tail string) string {
+		s := val.JSON(base + tail)
+		switch c.Wrap {
+		case "key":
+			return `{"k":` + s + `,"n":1}`
+		case "index":
+			return `[0,` + s + `,2]`
+		}
+		return s
+	}
+	aText, bText := mk("0"), mk("1")
+	bound := uint64(400*c.N + 4<<20)
+	steps := []struct {
+		name string
+		f    func()
+	}{
+		{"Diff", func() { _ = jdx.NodeText(aText).Diff(jdx.NodeText(bText)) }},
+		{"Diff+Render", func() { _ = jdx.NodeText(aText).Diff(jdx.NodeText(bText)).Render() }},
+		{"Diff+RenderPatch", func() { _, _ = jdx.NodeText(aText).Diff(jdx.NodeText(bText)).RenderPatch() }},
+		{"Diff(MERGE)+RenderMerge", func() { _, _ = jdx.NodeText(aText).Diff(jdx.NodeText(bText), jd.MERGE).RenderMerge() }},
+		{"Diff+Patch", func() { _, _ = jdx.NodeText(aText).Patch(jdx.NodeText(aText).Diff(jdx.NodeText(bText))) }},
+		{"Render+ReadDiffString", func() {
+			_, _ = jd.ReadDiffString(jdx.NodeText(aText).Diff(jdx.NodeText(bText)).Render())
+		}},
+		{"Diff(SET)+Render", func() { _ = jdx.NodeText(aText).Diff(jdx.NodeText(bText), jd.SET).Render() }},
+		{"Equals", func() { _ = jdx.NodeText(aText).Equals(jdx.NodeText(bText)) }},
+		{"Yaml", func() { _ = jdx.NodeText(aText).Yaml() }},
+	}
+	for _, s := range steps {
+		var got uint64
+		if msg, p := jdx.Guard(func() { got = allocatedBy(s.f) }); p {
+			return rec.Violated("%s panicked on a %d-byte string: %s", s.name, c.N, msg)
+		}
+		if got > bound {
+			return rec.Violated("%s allocates %d bytes for documents holding one %d-byte string (more than %d = 400 bytes per byte of input + 4 MB): memory grows faster than linearly and a 70 KB string would need gigabytes", s.name, got, c.N, bound)
+		}
+	}
+	r.Case(fmt.Sprintf("%d|%s", c.N, c.Wrap), true, "wrap="+c.Wrap)
+	r.Sample(c)
+	return nil
+}
+
+func init() { Register("C13", "scale", checkC13Scale) }
+
+func TestC13Scale(t *testing.T) {
+	e := NewEnum(t, "C13", "scale", checkC13Scale)
+	defer e.Done()
+	// ascending, so that a super-linear regression is caught at a small size
+	for _, n := range []int{1000, 4000, 16000, 70000} {
+		for _, w := range []string{"", "key", "index"} {
+			e.Do(ScaleCase{N: n, Wrap: w})
 		}
 	}
 }
